@@ -70,7 +70,7 @@ func init() {
 		"Decides sibling agreement of QuoInteger and Rem: both align with upscale and propagate its error, divide exactly once with truncating Quo/QuoRem on the aligned coefficients in order, test DivisionImpossible on that very quotient's digit count; QuoInteger's sign is x≠y and its exponent 0, Rem's sign is x's; Rem rounds once; the divisor is behind y's IsZero test.",
 		[]string{"the identity x = q·y + r itself (math/big arithmetic and alignment arithmetic)"})
 	prop("C11", "Sqrt is correctly rounded; Cbrt is within one unit and exact on perfect cubes",
-		[]string{"C11.R1", "C11.R2", "C11.R3", "C11.R4", "C04.R4", "C03.R5", "C12.R5"},
+		[]string{"C11.R1", "C11.R2", "C11.R3", "C11.R4", "C04.R4", "C03.R5", "C12.R5", "C11.R5"},
 		"Decides only structure: Sqrt's final rounding runs with Precision = c.Precision and Rounding = half-even on a working context of larger precision; Cbrt returns zero flags only under operand == d³; both take specials from rootSpecials; their loops are bounded and their wrapper errors surfaced; Sqrt corrects its last digit and derives Inexact from an exact comparison of the candidate's square with the operand; Cbrt works on the operand scaled by its digit count, locates the root among Precision-digit candidates by exact cubes, and every exit applies the scale.",
 		[]string{"correct rounding of Sqrt and the 1-ulp bound of Cbrt: real-analysis error bounds of Newton iterations with tuned guard digits — no sound static argument in reach"})
 	prop("C12", "Exp, Ln, Log10 and Pow are accurate to one unit in the last place",
